@@ -157,6 +157,9 @@ func WithTimeout(parent context.Context, d time.Duration) (*Ctx, func()) {
 // CancelByClock ends the context now; for use inside vs.At callbacks.
 func (c *Ctx) CancelByClock() { c.cancel(context.Canceled, true) }
 
+// ExpireByClock ends the context now with context.DeadlineExceeded (a deadline passing); for vs.At callbacks.
+func (c *Ctx) ExpireByClock() { c.cancel(context.DeadlineExceeded, true) }
+
 // CancelAt makes the context end (context.Canceled) at the given virtual instant, as a clock action.
 func (c *Ctx) CancelAt(at int64) {
 	S.addEvent(at, "ctx-cancel", func() { c.cancel(context.Canceled, true) })
